@@ -14,7 +14,7 @@ Corpus(name) == ndJsonDeserialize(CorpusDir \o "/" \o name \o ".ndjson")
 RV18 == Corpus("RV18")
 DV18 == Corpus("DV18")
 P2V18 == Corpus("P2V18")
-BadClasses == <<"empty", "truncated", "garbage", "notjson", "twodocs", "junkthendoc", "longgarbage", "ffpad", "nbsppad", "nelpad", "lspad">>
+BadClasses == <<"empty", "truncated", "garbage", "notjson", "twodocs", "junkthendoc", "longgarbage", "ffpad", "nbsppad", "nelpad", "lspad", "bompad">>
 
 VARIABLE sc       \* the scenario descriptor (constant during a behaviour)
 vars == <<sc, ruleText, dataArg, stdin, dataText, pc, pending, outcome, stdout, status>>
@@ -28,9 +28,12 @@ Scenarios == [r : (1..Len(RV18)) \cup {-q : q \in 1..NBad}, d : (1..Len(DV18)) \
              \cup [r : {1, 2, 11}, d : {2, 4, 7}, mode : {1, 2, 3}, st : {4}]
              \* st 5: the compact text followed by white space only (so a text starting with '-' still starts with it)
              \cup [r : {1, 6, 7, 11}, d : {2, 3, 6}, mode : {1, 2, 3}, st : {5}]
+             \* st 6: the data is an argument (also the empty, invalid one) while a VALID document waits on standard
+             \* input: it must be ignored exactly like junk
+             \cup [r : {1, 11}, d : {-1, 2, 3}, mode : {1}, st : {6}]
 \* classes -(NBad+1), -(NBad+2): invalid UTF-8 (before the document / inside a string of an otherwise well-formed
 \* document), only on standard input; invalid texts need no style variants
-Admissible(s) == (s.d <= -(NBad + 1) => s.mode \in {2, 3}) /\ ((s.r < 0 \/ s.d < 0) => s.st = 1)
+Admissible(s) == (s.d <= -(NBad + 1) => s.mode \in {2, 3}) /\ ((s.r < 0 \/ s.d < 0) => s.st \in {1, 6})
 DataTextOf(s) == IF s.d = -(NBad + 1) THEN Invalid("badutf8")
                  ELSE IF s.d = -(NBad + 2) THEN Invalid("badutf8str")
                  ELSE TextOf(DV18, s.d)
@@ -41,7 +44,7 @@ Init == /\ sc \in {s \in Scenarios : Admissible(s)}
                    CASE sc.mode = 1 -> [given |-> TRUE, dash |-> FALSE, text |-> DataTextOf(sc)]
                      [] sc.mode = 2 -> [given |-> FALSE, dash |-> FALSE, text |-> NoText]
                      [] sc.mode = 3 -> [given |-> TRUE, dash |-> TRUE, text |-> NoText],
-                   IF sc.mode = 1 THEN Junk ELSE DataTextOf(sc))
+                   IF sc.mode = 1 THEN (IF sc.st = 6 THEN Valid(DV18[2]) ELSE Junk) ELSE DataTextOf(sc))
 Next == CliNext /\ UNCHANGED sc
 Spec == Init /\ [][Next]_vars
 FairSpec == Spec /\ WF_vars(Next)
